@@ -20,6 +20,12 @@ HARNESS = {
             'call': 'check_c09(&buf[..len], idx, little)', 'unwind': 6},
     'c09_len': {'args': [('buf', 'u8x24'), ('len', 'usize'), ('little', 'bool')], 'bound': 'table <= 24 bytes (u32 entries and Rel/ELF32 entries)', 'assume': 'len <= 24',
                 'call': 'check_c09_len(&buf[..len], little)', 'unwind': 2},
+    'c14': {'args': [('buf', 'u8x40'), ('len', 'usize'), ('align_sel', 'u8'), ('elf64', 'bool'), ('little', 'bool')], 'bound': 'note bytes <= 40, alignment in {0,1,2,3,4,8,16}, first two notes',
+            'assume': 'len <= 40', 'call': 'check_c14(&buf[..len], align_sel, elf64, little)', 'unwind': 42},
+    'c03_range': {'args': [('off', 'u64'), ('size', 'u64'), ('memsz', 'u64'), ('nobits', 'bool')], 'bound': 'one 80-byte ELF64/LE file; all offsets, sizes, p_memsz', 'assume': 'true',
+                  'call': 'check_c03_range(off, size, memsz, nobits)', 'unwind': 82},
+    'c13_iter': {'args': [('buf', 'u8x56'), ('len', 'usize'), ('count', 'u8'), ('start', 'u8'), ('little', 'bool'), ('defs', 'bool')], 'bound': 'section bytes <= 56, count and start offset < 256, first three records',
+                 'assume': 'len <= 56', 'call': 'check_c13_iter(&buf[..len], count, start, little, defs)', 'unwind': 10},
     'c10': {'args': [('ident', 'u8x16')], 'bound': 'none (all 16-byte idents)', 'assume': 'true', 'call': 'check_c10(&ident)', 'unwind': 6},
     'hash': {'args': [('buf', 'u8x5'), ('len', 'usize')], 'bound': 'name <= 5 bytes', 'assume': 'len <= 5', 'call': 'check_hash(&buf[..len])', 'unwind': 7},
 }
@@ -123,6 +129,7 @@ def decode(vals, args):
             n = int(k[3:]); out[a] = [v[0] for v in vals[i:i + n]]; i += n
         elif k == 'usize': out[a] = int.from_bytes(bytes(vals[i]), 'little'); i += 1
         elif k in ('u8', 'bool'): out[a] = vals[i][0]; i += 1
+        elif k == 'u64': out[a] = int.from_bytes(bytes(vals[i]), 'little'); i += 1
     return out
 
 def replay_main(h, vals):
@@ -132,6 +139,7 @@ def replay_main(h, vals):
         if k.startswith('u8x'): lines.append('    let %s: [u8; %s] = %s;' % (a, k[3:], '[' + ', '.join(str(x) for x in v) + ']'))
         elif k == 'usize': lines.append('    let %s: usize = %d;' % (a, v))
         elif k == 'u8': lines.append('    let %s: u8 = %d;' % (a, v))
+        elif k == 'u64': lines.append('    let %s: u64 = %d;' % (a, v))
         elif k == 'bool': lines.append('    let %s: bool = %s;' % (a, 'true' if v else 'false'))
     lines.append('    match %s {' % h['call'])
     lines.append('        Ok(()) => println!("replay: the real crate behaves as specified on this input"),')
@@ -177,6 +185,9 @@ PAIRING = [
     (r'^C09\.(get\.|next\.|iter)', lambda m: 'c09'),
     (r'^C10\.(verify_ident|parse_ident|from_ei_data)\.', lambda m: 'c10'),
     (r'^(C12\.sysv_hash|C11\.gnu_hash|proof:hash::sysv_hash|proof:hash::gnu_hash)', lambda m: 'hash'),
+    (r'^C14\.(note|iter)\.', lambda m: 'c14'),
+    (r'^C03\.(section_range|segment_range|section_data|segment_data)\.', lambda m: 'c03_range'),
+    (r'^C1[36]\.(VerNeedIterator|VerDefIterator)\.next\.', lambda m: 'c13_iter'),
     (r'^C02\.parse_at\.[a-z_]+@ParseAt for (\w+)::parse_at$', lambda m: 'c02_' + m.group(1).lower()),
     (r'^C02\.size_for@ParseAt for (\w+)::size_for$', lambda m: 'c02_' + m.group(1).lower()),
 ]
